@@ -20,8 +20,9 @@ type failover interface {
 	Quorum() int
 
 	// IsWitness indicates if a report from the given witness counts towards
-	// the quorum, i.e. if it is one of the parties Quorum is computed from.
-	IsWitness(witness string) bool
+	// the quorum, i.e. if it is one of the parties Quorum is computed from
+	// and the epoch it reported is that of the current leader.
+	IsWitness(witness string, epoch uint64) bool
 
 	// Timeout returns the time elapsed before expiring a failover. Each time a
 	// report is made, the failover's timeout is reset. Upon timing out, the
@@ -45,30 +46,33 @@ type failoverStatus struct {
 	mu        sync.Mutex
 	failover  failover
 	timer     *time.Timer
-	witnesses map[string]struct{}
+	witnesses map[string]uint64 // Witness -> leader epoch it reported
 }
 
 func newFailoverStatus(f failover) *failoverStatus {
 	return &failoverStatus{
 		failover:  f,
-		witnesses: make(map[string]struct{}),
+		witnesses: make(map[string]uint64),
 	}
 }
 
-// report adds the given witness to the failoverStatus witnesses. If a quorum
-// of witnesses have reported the leader, a new leader will be selected.
-// Otherwise, the expiration timer is reset. A Status is returned if selecting
-// a new leader fails.
-func (f *failoverStatus) report(ctx context.Context, witness string) *status.Status {
+// report adds the given witness, which reported the leader with the given
+// epoch, to the failoverStatus witnesses. If a quorum of witnesses have
+// reported the leader, a new leader will be selected. Otherwise, the
+// expiration timer is reset. A Status is returned if selecting a new leader
+// fails.
+func (f *failoverStatus) report(ctx context.Context, witness string, epoch uint64) *status.Status {
 	f.mu.Lock()
 
-	f.witnesses[witness] = struct{}{}
+	f.witnesses[witness] = epoch
 	// The quorum is computed from the parties that can currently report the
 	// leader. Forget witnesses which are no longer among them, e.g. a replica
-	// that was removed from the ISR after it reported the leader.
+	// that was removed from the ISR after it reported the leader, and
+	// witnesses which reported a leader that has since been replaced, e.g.
+	// because their report arrived while the leader change was in flight.
 	quorum := f.failover.Quorum()
-	for w := range f.witnesses {
-		if !f.failover.IsWitness(w) {
+	for w, e := range f.witnesses {
+		if !f.failover.IsWitness(w, e) {
 			delete(f.witnesses, w)
 		}
 	}
@@ -81,7 +85,7 @@ func (f *failoverStatus) report(ctx context.Context, witness string) *status.Sta
 		// The witnesses have served their purpose. Forget them so that they
 		// do not count towards a later failover, e.g. of the newly selected
 		// leader, for which a new quorum has to report within the timeout.
-		f.witnesses = make(map[string]struct{})
+		f.witnesses = make(map[string]uint64)
 		f.mu.Unlock()
 		return f.failover.Failover(ctx)
 	}
@@ -131,10 +135,11 @@ func (p *partitionFailover) Quorum() int {
 	return (p.partition.ISRSize() - 1) / 2
 }
 
-// IsWitness indicates if the given replica is an in-sync follower.
-func (p *partitionFailover) IsWitness(witness string) bool {
-	leader, _ := p.partition.GetLeader()
-	return witness != leader && p.partition.inISR(witness)
+// IsWitness indicates if the given replica is an in-sync follower and the
+// given epoch is the current leader epoch.
+func (p *partitionFailover) IsWitness(witness string, epoch uint64) bool {
+	leader, leaderEpoch := p.partition.GetLeader()
+	return epoch == leaderEpoch && witness != leader && p.partition.inISR(witness)
 }
 
 // Timeout returns the configured ReplicaMaxLeaderTimeout.
@@ -178,8 +183,10 @@ func (g *groupFailover) Quorum() int {
 	return len(g.group.GetMembers()) / 2
 }
 
-// IsWitness indicates if the given consumer is a member of the group.
-func (g *groupFailover) IsWitness(witness string) bool {
+// IsWitness indicates if the given consumer is a member of the group. The
+// epoch is not taken into account because the group epoch also changes when
+// the group's members or assignments change.
+func (g *groupFailover) IsWitness(witness string, _ uint64) bool {
 	return g.group.IsMember(witness)
 }
 
